@@ -274,3 +274,26 @@ Theorem C11_fastread_bounded_closed : forall b n, wf b ->
   (forall p, fastread_baseresp b = Ok (p, n) -> n <= len b) /\
   (forall p, fastread_appex b = Ok (p, n) -> n <= len b).
 Proof. exact (C11_fastread_bounded C11_SK_safe C11_SK_bounded). Qed.
+
+(* ---- Base.FastRead and BaseResp.FastRead REGENERATED FROM THE GO SOURCE on every run (tools/gotrans
+        phase 2: the generated k-base.go code with its for loop, switch on id<<8|type, goto error
+        labels, map fill; thrift.Binary.Skip as the parameter [xs], discharged below by the hand
+        skipper) are proved equal to the hand model (Proofs/GenEquivFast.v); the order- and
+        unknown-field-independence theorem therefore holds of the regenerated definitions ---- *)
+From GV Require Import Lib.GoSem Gen.Funcs Proofs.GenLib Proofs.GenEquivFast Proofs.GenCorollariesFast.
+
+Theorem C11_gen_base_read_any_order_unknowns : forall en fuel p its rest,
+  forallb (ritem_ok base_schema) its = true -> wf rest ->
+  glen_ok (enc_ritems its ++ rest) -> (S (length (enc_ritems its ++ rest)) < fuel)%nat ->
+  let p' := apply_items base_apply p its in
+  exists ex', g_base_Base_FastRead xskip fuel en false (b_logid p) (b_caller p) (b_addr p) (b_extra p) (enc_ritems its ++ rest)
+              = Ok (b_logid p', b_caller p', b_addr p', ex', Z.of_N (len (enc_ritems its)), gnil) /\ mequiv ex' (b_extra p').
+Proof. intros en. exact (g_base_read_any_order_unknowns xskip xskip_ok en C11_SK_exact C11_ENC_wf). Qed.
+
+Theorem C11_gen_baseresp_read_any_order_unknowns : forall en fuel p its rest,
+  forallb (ritem_ok baseresp_schema) its = true -> wf rest ->
+  glen_ok (enc_ritems its ++ rest) -> (S (length (enc_ritems its ++ rest)) < fuel)%nat ->
+  let p' := apply_items baseresp_apply p its in
+  exists ex', g_base_BaseResp_FastRead xskip fuel en false (r_msg p) (r_code p) (r_extra p) (enc_ritems its ++ rest)
+              = Ok (r_msg p', r_code p', ex', Z.of_N (len (enc_ritems its)), gnil) /\ mequiv ex' (r_extra p').
+Proof. intros en. exact (g_baseresp_read_any_order_unknowns xskip xskip_ok en C11_SK_exact C11_ENC_wf). Qed.
